@@ -407,6 +407,10 @@ func exec(r *harness.Run) *harness.Violation {
 					k++
 				}
 			}
+			if len(gs) == 1 && len(ws) == 1 {
+				// A single panic, no nesting: not covered by any known finding.
+				return harness.Violf(cls("wrong-panic-value"), "%s: the unrecovered panic is [%s], gc has [%s]", ctx, gs[0], ws[0])
+			}
 			if k == len(ws) && len(gs) > len(ws) {
 				return harness.Violf(cls("wrong-chain-extra-elements"), "%s: panic chain (earliest first) is [%s], gc has [%s]", ctx, strings.Join(gs, " | "), strings.Join(ws, " | "))
 			}
